@@ -2,7 +2,7 @@
    Interpreter.unused_assignments, ml.MLAllowlist): the analyses in Analysis.ALL order over the
    decompiled module, the shared de-duplication set, shorten_code, and the verdict. *)
 From Coq Require Import List String Ascii ZArith Bool Arith.
-From Verif Require Import Base Ops Interp Unparse Severity AnalysisTable MLTable.
+From Verif Require Import Base Ops Interp Unparse Severity AnalysisTable MLTable ReportTable.
 Import ListNotations.
 Open Scope string_scope.
 Local Infix "+++" := (@app _) (at level 60, right associativity).
@@ -56,11 +56,65 @@ Fixpoint starts_with (p s : string) : bool :=
   end.
 
 (* ---------- findings ---------- *)
+(* values an f-string placeholder / a trigger expression can be bound to *)
+Inductive bval := BStr (s : string) | BInt (z : Z).
+(* AnalysisResult.trigger: None, one value, a tuple of values, or -- when the construction site passes
+   something the model cannot bind to a string / int -- an opaque object (not JSON-serialisable) *)
+Inductive trigger := TNone | TVal (b : bval) | TTuple (l : list bval) | TOpaque (src : string).
+
 Record finding := mkFinding {
   f_analysis : string;
   f_sev : string;          (* Severity member name *)
-  f_trigger : string
+  f_trigger : string;      (* str(trigger), tuple members joined by a blank *)
+  f_site : string * nat;   (* (class, index of the AnalysisResult(...) call in its analyze) *)
+  f_msg : option string;   (* AnalysisResult.message *)
+  f_trig : trigger         (* AnalysisResult.trigger *)
 }.
+
+(* ---------- construction sites (generated ReportTable) ---------- *)
+Definition site_row := (string * (option string * (option (list mpart) * trsrc)))%type.
+Fixpoint find_site (cls : string) (idx : nat) (l : list ((string * nat) * site_row)) : option site_row :=
+  match l with
+  | [] => None
+  | ((c, i), r) :: t => if (c =? cls) && Nat.eqb i idx then Some r else find_site cls idx t
+  end.
+
+Definition bval_text (b : bval) : string :=
+  match b with BStr s => s | BInt z => z_to_string z end.
+Definition benv := list bval.     (* values of the site's placeholders, in order of first occurrence *)
+Definition fill_part (env : benv) (p : mpart) : string :=
+  match p with
+  | MLit s => s
+  | MVar k => match nth_error env k with Some b => bval_text b | None => "<?" ++ nat_to_string k ++ ">" end
+  end.
+Fixpoint bind_all (env : benv) (ks : list nat) : option (list bval) :=
+  match ks with
+  | [] => Some []
+  | x :: r => match nth_error env x, bind_all env r with
+              | Some b, Some t => Some (b :: t)
+              | _, _ => None
+              end
+  end.
+Definition site_message (cls : string) (idx : nat) (env : benv) : option string :=
+  match find_site cls idx report_sites with
+  | Some (_, (_, (Some parts, _))) => Some (String.concat "" (map (fill_part env) parts))
+  | _ => None
+  end.
+Definition site_trigger (cls : string) (idx : nat) (env : benv) : trigger :=
+  match find_site cls idx report_sites with
+  | Some (_, (_, (_, TrNone))) => TNone
+  | Some (_, (_, (_, TrRef k))) =>
+      match nth_error env k with Some b => TVal b | None => TOpaque "<unbound placeholder>" end
+  | Some (_, (_, (_, TrTuple ks))) =>
+      match bind_all env ks with Some l => TTuple l | None => TOpaque "<unbound placeholder>" end
+  | Some (_, (_, (_, TrOther src))) => TOpaque src
+  | None => TOpaque "<no such site>"
+  end.
+
+(* the finding built at site (cls, idx): name, severity and str(trigger) as the model states them,
+   message and trigger as the live construction site states them under the bindings [env] *)
+Definition mkF (cls : string) (idx : nat) (aname sev trig_text : string) (env : benv) : finding :=
+  mkFinding aname sev trig_text (cls, idx) (site_message cls idx env) (site_trigger cls idx env).
 
 Definition dedup := list string.    (* AnalysisContext.reported_shortened_code *)
 
@@ -195,16 +249,27 @@ Definition dotted_prefixes (m : string) : list string := rev (prefixes_of (split
 Definition add (t : string) (d : dedup) : dedup := if mem_str t d then d else t :: d.
 
 (* DuplicateProtoAnalysis / MisplacedProtoAnalysis over (index, version) of the PROTO opcodes *)
+Definition z_mem (z : Z) (l : list Z) : bool := existsb (Z.eqb z) l.
+Definition ordinal_suffix (i : nat) : string :=     (* DuplicateProtoAnalysis._get_suffix *)
+  match i with 0 => "st" | 1 => "nd" | 2 => "rd" | _ => "th" end.
+(* later PROTOs: the message variant depends on whether the version was seen in an earlier PROTO *)
+Fixpoint dup_protos (seen : list Z) (later : list (nat * Z)) : list finding :=
+  match later with
+  | [] => []
+  | (i, v) :: r =>
+      mkF "DuplicateProtoAnalysis" (if z_mem v seen then 0 else 1)
+          "DuplicateProtoAnalysis" "LIKELY_UNSAFE" (nat_to_string (S i))
+          [(BInt (Z.of_nat (S i))); (BStr (ordinal_suffix i))]
+      :: dup_protos (v :: seen) r
+  end.
 Definition proto_findings (protos : list (nat * Z)) : list finding * list finding :=
   let dup := match protos with
              | [] => []
-             | _ :: later =>
-                 map (fun iv => mkFinding "DuplicateProtoAnalysis" "LIKELY_UNSAFE"
-                                          (nat_to_string (S (fst iv)))) later
+             | (_, v0) :: later => dup_protos [v0] later
              end in
   let mis := flat_map (fun iv => if (2 <=? snd iv)%Z && (0 <? fst iv)%nat
-                                 then [mkFinding "MisplacedProtoAnalysis" "LIKELY_UNSAFE"
-                                                 (z_to_string (snd iv))]
+                                 then [mkF "MisplacedProtoAnalysis" 0 "MisplacedProtoAnalysis" "LIKELY_UNSAFE"
+                                           (z_to_string (snd iv)) [(BInt (snd iv))]]
                                  else []) protos in
   (dup, mis).
 
@@ -217,7 +282,8 @@ Fixpoint non_standard_imports (imps : list (string * string)) (d : dedup) : list
         let t := shorten (imp_text mn) in
         let seen := mem_str t d in
         let '(fs, d') := non_standard_imports r (add t d) in
-        ((if seen then [] else [mkFinding "NonStandardImports" "LIKELY_UNSAFE" t]) +++ fs, d')
+        ((if seen then [] else [mkF "NonStandardImports" 0 "NonStandardImports" "LIKELY_UNSAFE" t
+                                         [(BStr t)]]) +++ fs, d')
   end.
 
 Definition in_unsafe_imports (m n : string) : bool :=
@@ -226,20 +292,33 @@ Definition in_unsafe_imports (m n : string) : bool :=
   | None => false
   end.
 
+Definition risk_of_module (p : string) : string :=
+  match assoc_str p unsafe_modules_info with Some t => t | None => "<?risk>" end.
+Definition risk_of_import (m n : string) : string :=
+  match assoc_str m unsafe_imports_info with
+  | Some l => match assoc_str n l with Some t => t | None => "<?risk>" end
+  | None => "<?risk>"
+  end.
+
 Fixpoint unsafe_imports_ml (imps : list (string * string)) (d : dedup) : list finding * dedup :=
   match imps with
   | [] => ([], d)
   | mn :: r =>
       let t := shorten (imp_text mn) in
       let mods := flat_map (fun p => if mem_str p unsafe_modules
-                                     then [mkFinding "UnsafeImportsML" "LIKELY_OVERTLY_MALICIOUS" t]
+                                     then [mkF "UnsafeImportsML" 0 "UnsafeImportsML" "LIKELY_OVERTLY_MALICIOUS" t
+                                             [(BStr t); (BStr p);
+                                              (BStr (risk_of_module p))]]
                                      else []) (dotted_prefixes (fst mn)) in
       let byname :=
         match assoc_str (fst mn) unsafe_imports with
         | Some names => if mem_str (snd mn) names
-                        then [mkFinding "UnsafeImportsML" "LIKELY_OVERTLY_MALICIOUS" t] else []
+                        then [mkF "UnsafeImportsML" 1 "UnsafeImportsML" "LIKELY_OVERTLY_MALICIOUS" t
+                                [(BStr t); (BStr (snd mn));
+                                 (BStr (risk_of_import (fst mn) (snd mn)))]] else []
         | None => if snd mn =? "eval"
-                  then [mkFinding "UnsafeImportsML" "LIKELY_OVERTLY_MALICIOUS" t] else []
+                  then [mkF "UnsafeImportsML" 2 "UnsafeImportsML" "LIKELY_OVERTLY_MALICIOUS" t
+                          [(BStr t)]] else []
         end in
       let '(fs, d') := unsafe_imports_ml r (add t d) in
       (mods +++ byname +++ fs, d')
@@ -255,7 +334,7 @@ Fixpoint bad_calls_an (ns : list node) (calls : list expr) (d : dedup) : list fi
       let t := shorten (call_text ns c) in
       if bad_prefix t then
         let '(fs, d') := bad_calls_an ns r (add t d) in
-        (mkFinding "OvertlyBadEval" "OVERTLY_MALICIOUS" t :: fs, d')
+        (mkF "BadCalls" 0 "OvertlyBadEval" "OVERTLY_MALICIOUS" t [(BStr t)] :: fs, d')
       else bad_calls_an ns r d
   end.
 
@@ -280,8 +359,10 @@ Fixpoint overtly_bad_evals (ns : list node) (safe : list string) (calls : list e
         let t := shorten (call_text ns c) in
         let seen := mem_str t d in
         let '(fs, d') := overtly_bad_evals ns safe r (add t d) in
-        ((if overt_prefix t then [mkFinding "OvertlyBadEval" "OVERTLY_MALICIOUS" t]
-          else if seen then [] else [mkFinding "OvertlyBadEval" "LIKELY_UNSAFE" t]) +++ fs, d')
+        ((if overt_prefix t
+          then [mkF "OvertlyBadEvals" 0 "OvertlyBadEval" "OVERTLY_MALICIOUS" t [(BStr t)]]
+          else if seen then []
+          else [mkF "OvertlyBadEvals" 1 "OvertlyBadEval" "LIKELY_UNSAFE" t [(BStr t)]]) +++ fs, d')
   end.
 
 Fixpoint unsafe_imports_an (imps : list (string * string)) (d : dedup) : list finding * dedup :=
@@ -291,7 +372,7 @@ Fixpoint unsafe_imports_an (imps : list (string * string)) (d : dedup) : list fi
       if mem_str (fst mn) unsafe_imports_modules || (snd mn =? "eval") then
         let t := shorten (imp_text mn) in
         let '(fs, d') := unsafe_imports_an r (add t d) in
-        (mkFinding "UnsafeImports" "LIKELY_OVERTLY_MALICIOUS" t :: fs, d')
+        (mkF "UnsafeImports" 0 "UnsafeImports" "LIKELY_OVERTLY_MALICIOUS" t [(BStr t)] :: fs, d')
       else unsafe_imports_an r d
   end.
 
@@ -301,7 +382,8 @@ Fixpoint unused_variables_an (ns : list node) (un : list (nat * expr)) (d : dedu
   | (i, e) :: r =>
       let t := shorten (call_text ns e) in
       let '(fs, d') := unused_variables_an ns r (add t d) in
-      (mkFinding "UnusedVariables" "SUSPICIOUS" (var_name i ++ " " ++ t) :: fs, d')
+      (mkF "UnusedVariables" 0 "UnusedVariables" "SUSPICIOUS" (var_name i ++ " " ++ t)
+            [(BStr (var_name i)); (BStr t)] :: fs, d')
   end.
 
 Fixpoint ml_allowlist_an (imps : list (string * string)) (d : dedup) : list finding * dedup :=
@@ -313,9 +395,10 @@ Fixpoint ml_allowlist_an (imps : list (string * string)) (d : dedup) : list find
       let here :=
         if seen then []
         else match assoc_str (fst mn) ml_allowlist with
-             | None => [mkFinding "MLAllowlist" "LIKELY_UNSAFE" t]
+             | None => [mkF "MLAllowlist" 0 "MLAllowlist" "LIKELY_UNSAFE" t [(BStr t)]]
              | Some names => if mem_str (snd mn) names then []
-                             else [mkFinding "MLAllowlist" "LIKELY_UNSAFE" t]
+                             else [mkF "MLAllowlist" 1 "MLAllowlist" "LIKELY_UNSAFE" t
+                                     [(BStr t); (BStr (snd mn))]]
              end in
       let '(fs, d') := ml_allowlist_an r (add t d) in
       (here +++ fs, d')
@@ -366,3 +449,89 @@ Definition finding_sev (f : finding) : sev :=
   match sev_of_name (f_sev f) with Some s => s | None => 0 end.
 
 Definition verdict (fs : list finding) : sev := severity (map finding_sev fs).
+
+(* ---------- the report: AnalysisResults.to_string / detailed_results / to_dict ---------- *)
+Inductive json :=
+| JStr (s : string)
+| JInt (z : Z)
+| JList (l : list json)
+| JDict (kvs : list (string * json))
+| JOpaque (what : string).       (* an object json.dumps refuses (e.g. an ast node) *)
+
+(* what json.dumps accepts: strings, ints, lists and string-keyed dicts of those *)
+Fixpoint json_ok (j : json) : bool :=
+  match j with
+  | JStr _ | JInt _ => true
+  | JList l => forallb json_ok l
+  | JDict kvs => forallb (fun kv => json_ok (snd kv)) kvs
+  | JOpaque _ => false
+  end.
+
+Definition json_of_bval (b : bval) : json :=
+  match b with BStr s => JStr s | BInt z => JInt z end.
+Definition json_of_trigger (t : trigger) : json :=
+  match t with
+  | TNone => JOpaque "None"              (* never stored: falsy *)
+  | TVal b => json_of_bval b
+  | TTuple l => JList (map json_of_bval l)
+  | TOpaque src => JOpaque src
+  end.
+(* `if result.trigger:` *)
+Definition trigger_truthy (t : trigger) : bool :=
+  match t with
+  | TNone => false
+  | TVal (BStr s) => negb (s =? "")
+  | TVal (BInt z) => negb (z =? 0)%Z
+  | TTuple l => match l with [] => false | _ => true end
+  | TOpaque _ => true
+  end.
+
+(* dict assignment: an existing key keeps its position and takes the new value *)
+Fixpoint jset (k : string) (v : json) (l : list (string * json)) : list (string * json) :=
+  match l with
+  | [] => [(k, v)]
+  | (k', v') :: r => if k =? k' then (k, v) :: r else (k', v') :: jset k v r
+  end.
+
+(* detailed["AnalysisResult"][result.analysis_name] = result.trigger for every truthy trigger *)
+Definition detailed_entries (fs : list finding) : list (string * json) :=
+  fold_left (fun acc f => if trigger_truthy (f_trig f)
+                          then jset (f_analysis f) (json_of_trigger (f_trig f)) acc else acc) fs [].
+Definition detailed_results (fs : list finding) : json :=
+  match detailed_entries fs with
+  | [] => JDict []
+  | es => JDict [("AnalysisResult", JDict es)]
+  end.
+
+(* str(result) *)
+Definition finding_str (f : finding) : string :=
+  match f_msg f with Some m => m | None => no_message_text end.
+
+Definition sev_named (n : string) : sev := match sev_of_name n with Some s => s | None => 0 end.
+Definition default_verbosity : sev := sev_named "POSSIBLY_UNSAFE".
+
+(* "\n".join(str(r) for r in self.results if verbosity <= r.severity) *)
+Definition LF : string := String (ascii_of_nat 10) EmptyString.
+Definition to_string (verbosity : sev) (fs : list finding) : string :=
+  String.concat LF (map finding_str (filter (fun f => sev_le verbosity (finding_sev f)) fs)).
+
+(* str.strip() leaves nothing: only (ASCII) white space; every message has literal non-blank text *)
+Definition is_ws (c : ascii) : bool :=
+  let n := nat_of_ascii c in (((9 <=? n) && (n <=? 13)) || ((28 <=? n) && (n <=? 32)))%nat.
+Fixpoint blank (s : string) : bool :=
+  match s with EmptyString => true | String c r => is_ws c && blank r end.
+
+Definition nothing_found : string := String.concat LF nothing_found_lines.
+
+Definition to_dict (verbosity : sev) (fs : list finding) : json :=
+  let msg := to_string verbosity fs in
+  JDict [("severity", JStr (sev_name (verdict fs)));
+         ("analysis", JStr (if blank msg then nothing_found else msg));
+         ("detailed_results", detailed_results fs)].
+
+(* loader.load: check_safety(pickled, json_output_path) writes to_dict(verbosity) to the file; then
+   `if result.severity <= max_acceptable_severity` loads, else raises UnsafeFileError(file, result.to_dict()) *)
+Inductive load_outcome := Loaded | Unsafe (info : json).
+Definition json_file (fs : list finding) : json := to_dict default_verbosity fs.
+Definition loader (max_acceptable : sev) (fs : list finding) : load_outcome :=
+  if sev_le (verdict fs) max_acceptable then Loaded else Unsafe (to_dict default_verbosity fs).
